@@ -294,6 +294,21 @@ impl Run {
             .ok()
             .and_then(|s| s.parse().ok())
             .unwrap_or(10_000);
+        // resident-set guard: an exploration that outgrows memory is a
+        // machinery failure (exit 2), never a verdict
+        let rss_limit_gb: u64 = std::env::var("VERIF_MAX_RSS_GB")
+            .ok()
+            .and_then(|s| s.parse().ok())
+            .unwrap_or(36);
+        std::thread::spawn(move || loop {
+            std::thread::sleep(Duration::from_millis(500));
+            if let Ok(t) = fs::read_to_string("/proc/self/statm") {
+                let pages: u64 = t.split(' ').nth(1).and_then(|x| x.parse().ok()).unwrap_or(0);
+                if pages * 4096 > rss_limit_gb << 30 {
+                    machinery_error(&format!("resident set exceeded {} GB; configuration too large for this tier", rss_limit_gb));
+                }
+            }
+        });
         let r = run.clone();
         std::thread::spawn(move || loop {
             std::thread::sleep(Duration::from_millis(250));
